@@ -193,6 +193,32 @@ func c16Work(c *mc.Ctx) {
 		run(2, []any{0, t})
 		run(2, map[string]any{"": t, "b": "x"})
 	}
+	// the size dimension: strings, keys and containers of every sweep length, nested so that their
+	// size feeds an enclosing entry's length prefix and a sibling follows them
+	for _, n := range ref.SweepLengths(c.Tier, true) {
+		if n > 20000 {
+			continue
+		}
+		str := strings.Repeat("s", n)
+		arr := make([]any, n)
+		obj := map[string]any{}
+		for i := range arr {
+			arr[i] = i % 5
+			obj[fmt.Sprintf("k%d", i)] = i
+		}
+		run(2, map[string]any{"a": []any{str}})
+		run(2, map[string]any{"a": []any{1, str, nil}, "b": "after"})
+		run(2, []any{[]any{str}, "after"})
+		run(2, map[string]any{"k": str, "z": 1})
+		run(2, map[string]any{"k" + str: 1, "b": 2})
+		run(3, map[string]any{"a": []any{map[string]any{"k1": str, "k2": 2}}})
+		if n <= 2100 {
+			run(2, map[string]any{"a": arr, "b": "x"})
+			run(2, []any{arr, "after"})
+			run(2, []any{obj, "after"})
+			run(3, map[string]any{"m": map[string]any{"in": obj}, "z": []any{arr}})
+		}
+	}
 	// depth 3: wrap depth-2 containers
 	for i, t := range d1 {
 		if c.Tier != "thorough" && i%7 != 0 {
